@@ -2,7 +2,7 @@ From Coq Require Import ExtrOcamlBasic ExtrOcamlString.
 From Martian.Common Require Import ExtractBase.
 From Martian.C18 Require Import Model.
 Extraction Language OCaml.
-Extraction "model.ml" base_anchor write run open_ctx invalidate set_acts set_off_gi emitted stamps
+Extraction "model.ml" base_anchor write run open_ctx respond invalidate set_acts set_off_gi emitted stamps
   first_close validate build_map post accept close_conn lstep lrun listener_init conn_valid
   lookup_shape conn_default_cap ok_prefix ok_close ok_halts gap_at ok_release ok_rate
   bstep bpassed default_bw is_action_ev.
